@@ -5,6 +5,7 @@
 package main
 
 import (
+	"bufio"
 	"encoding/json"
 	"errors"
 	"flag"
@@ -135,11 +136,8 @@ func cmdLoadHist(args []string) {
 	offender := fs.Bool("offender", false, "check that the error of a refused load names the model's offender (single-defect documents only)")
 	requests := fs.Bool("requests", false, "C16: ask a request set derived from the schema after every load (root resolver echoing the arguments) and compare the final answers with those of a root that loaded the same definitions as one document")
 	_ = fs.Parse(args)
-	var hs []History
-	vh.ReadJSON(*vp, &hs)
 	rep := vh.NewReport("schema", "loadhist")
-	for hi := range hs {
-		h := &hs[hi]
+	eachHistory(*vp, func(hi int, h *History) {
 		root := newRootFor(hi, *intro)
 		if *requests {
 			root = ggql.NewRoot(map[string]interface{}{})
@@ -282,8 +280,32 @@ func cmdLoadHist(args []string) {
 		if hi%997 == 0 {
 			rep.Sample(histText(h, len(h.Hist)-1))
 		}
-	}
+	})
 	rep.Emit()
+}
+
+// eachHistory reads histories one at a time: a JSON array of them, or one JSON document per line.
+func eachHistory(path string, f func(hi int, h *History)) {
+	fh, err := os.Open(path)
+	if err != nil {
+		vh.Die("read %s: %s", path, err)
+	}
+	defer fh.Close()
+	br := bufio.NewReaderSize(fh, 1<<20)
+	first, _ := br.Peek(1)
+	dec := json.NewDecoder(br)
+	if len(first) == 1 && first[0] == '[' {
+		if _, err = dec.Token(); err != nil {
+			vh.Die("parse %s: %s", path, err)
+		}
+	}
+	for hi := 0; dec.More(); hi++ {
+		var h History
+		if err = dec.Decode(&h); err != nil {
+			vh.Die("parse %s (history %d): %s", path, hi, err)
+		}
+		f(hi, &h)
+	}
 }
 
 // expand replaces the ASCII stand-ins of MCPrint.tla by the characters they stand for.
